@@ -182,6 +182,7 @@ type Ctx struct {
 	allocLimit *Term
 	cur        *Frame
 	obl        [4]int
+	clock      int64
 }
 
 func (c *Ctx) hasSymbolic(args []Value) bool {
@@ -1044,6 +1045,7 @@ func (c *Ctx) resetRun(prefix []Decision) {
 	c.sched = nil
 	c.envTab, c.held, c.onceDone, c.wg, c.chanUndo = nil, nil, nil, nil, nil
 	c.allocLimit = nil
+	c.clock = 0
 }
 
 func (c *Ctx) rollback() { c.rollbackTo(0) }
